@@ -30,6 +30,8 @@ import (
 
 func init() { streams["bytes"] = stream{gen: genBytes, run: runBytes} }
 
+const stmtTruncate = "TRUNCATE ks.t"
+
 type sentReq struct {
 	raw      []byte
 	msg      message.Message
@@ -187,7 +189,7 @@ func runBytes(op string) (out string) {
 	defer cl.Close()
 	// prepared statements of both kinds (their ids are what EXECUTE / BATCH children refer to)
 	prepared := map[string]bool{}
-	for _, q := range []string{stmtSelect, stmtIdem} {
+	for _, q := range []string{stmtSelect, stmtIdem, stmtTruncate} {
 		_ = cl.Send(1, &message.Prepare{Query: q})
 		if _, err := cl.Recv(3 * time.Second); err != nil {
 			return "prepare-unanswered"
@@ -221,8 +223,11 @@ func runBytes(op string) (out string) {
 			isSelect = strings.HasPrefix(strings.ToUpper(strings.TrimSpace(msg.(*message.Query).Query)), "SELECT")
 		case 2:
 			q := stmtIdem
-			if rr.Bool() {
+			switch rr.Intn(5) {
+			case 0, 1:
 				q, isSelect = stmtSelect, true
+			case 2:
+				q = stmtTruncate // not a SELECT, and not a statement the idempotency parser knows either
 			}
 			ex := &message.Execute{QueryId: pid(q), Options: opts}
 			if version == primitive.ProtocolVersion5 || version == primitive.ProtocolVersionDse2 {
@@ -584,7 +589,7 @@ func genBytes(e *emitter, r *rng.R, n int, tier string) {
 	ops = append(ops, "V:4 Z:- U:- R:6 S:11 N:3 G:2000", "V:5 Z:lz4 U:1 R:6 S:12 N:3 G:1900", "V:3 Z:snappy U:- R:6 S:13 N:3 G:1900")
 	for i := 0; i < n; i++ {
 		rr := r.Fork(uint64(i))
-		ops = append(ops, fmt.Sprintf("V:%d Z:%s U:%s R:%d S:%d N:%d", versions[rr.Intn(5)], comps[rr.Intn(3)], unsup[rr.Intn(len(unsup))], []int{6, 1, 4, 10}[rr.Intn(4)], rr.Intn(1<<30), 6+rr.Intn(6)))
+		ops = append(ops, fmt.Sprintf("V:%d Z:%s U:%s R:%d S:%d N:%d", versions[rr.Intn(5)], comps[rr.Intn(3)], unsup[rr.Intn(len(unsup))], []int{6, 1, 4, 10, 0, 0}[rr.Intn(6)], rr.Intn(1<<30), 6+rr.Intn(6)))
 	}
 }
 
